@@ -90,3 +90,17 @@ def _c12_mixed(f: Failure) -> bool:
     if f["kind"] == "exception-on-wellformed-response":
         return o.get("exc") in ("ProtocolError", "ReadTimeoutError", "InvalidChunkLength", "AttributeError") or (o.get("exc") == "DecodeError" and o.get("coding") != "identity")
     return f["kind"] in ("short-read-before-end", "empty-piece-from-stream")
+
+
+# ---------------------------------------------------------------------------------- C13 -------
+@finding("C13", "decode-error-after-complete-body-connection-kept")
+def _c13_decode_after_full_read(f: Failure) -> bool:
+    """Content decoding runs after the raw body has been read; when the framing was complete the response has by
+    then released its (clean) connection to the pool, so the DecodeError can no longer close it."""
+    o = f["observed"] or {}
+    return (
+        f["kind"] in ("damaged-connection-reused", "damaged-connection-left-open")
+        and o.get("damage") in ("content-corrupt", "content-incomplete")
+        and o.get("first_raised") == "DecodeError"
+        and o.get("raw_body_fully_read_before_error") is True
+    )
